@@ -30,7 +30,7 @@ STR_ARRAY_CELLS = [s for s in STR_CELLS if '}' not in s]
 
 LONGW = 64
 LONG_CELLS = ['x' * 50, ('word ' * 12).strip(), 'tab\there ' + 'y' * 40, '']
-KINDS = ['i4', 'i2', 'i8', 'f4', 'f8', 'S', 'enum', 'i4[2]', 'f4[2]', 'f8[2]', 'S[2]']
+KINDS = ['i4', 'i2', 'i8', 'f4', 'f8', 'S', 'enum', 'i4[2]', 'f4[2]', 'f8[2]', 'S[2]', 'enum2', 'i8[1]', 'S[1]']
 
 
 def base_kind(kind):
@@ -38,7 +38,11 @@ def base_kind(kind):
 
 
 def is_array(kind):
-    return kind.endswith('[2]')
+    return kind.endswith(']')
+
+
+def arr_len(kind):
+    return int(kind[kind.index('[') + 1:-1]) if is_array(kind) else 0
 
 
 def scalar_cells(kind, in_array=False):
@@ -51,7 +55,7 @@ def scalar_cells(kind, in_array=False):
         return F8_CELLS
     if b == 'S':
         return STR_ARRAY_CELLS if in_array else STR_CELLS
-    if b == 'enum':
+    if b in ('enum', 'enum2'):
         return ENUM_LABELS
     if b == 'L':
         return LONG_CELLS
@@ -63,9 +67,10 @@ def rep_cells(kind):
     b = base_kind(kind)
     two = {'i2': [-32768, 7], 'i4': [2147483647, -1], 'i8': [-9223372036854775808, 3],
            'f4': [float(_f4(0.1)), float('nan')], 'f8': [1.0 / 3.0, float('-inf')],
-           'S': ['a b', ''], 'enum': ['GREEN_X', 'B']}[b]
+           'S': ['a b', ''], 'enum': ['GREEN_X', 'B'], 'enum2': ['B', 'RED']}[b]
     if is_array(kind):
-        return [[two[0], two[1]], [two[1], two[1]]]
+        n = arr_len(kind)
+        return [([two[0], two[1]] * n)[:n], [two[1]] * n]
     return two
 
 
@@ -73,11 +78,11 @@ def np_dtype(kind, ustr=False):
     b = base_kind(kind)
     if b == 'L':
         d = ('U%d' if ustr else 'S%d') % LONGW
-    elif b in ('S', 'enum'):
+    elif b in ('S', 'enum', 'enum2'):
         d = ('U%d' if ustr else 'S%d') % STRW
     else:
         d = b
-    return (d, (2,)) if is_array(kind) else d
+    return (d, (arr_len(kind),)) if is_array(kind) else d
 
 
 def build_recarray(cols, rows, ustr=False):
@@ -86,14 +91,16 @@ def build_recarray(cols, rows, ustr=False):
     arr = np.zeros((len(rows),), dtype=dt)
     for i, row in enumerate(rows):
         for (n, k), cell in zip(cols, row):
-            if base_kind(k) in ('S', 'enum', 'L') and not ustr:
+            if base_kind(k) in ('S', 'enum', 'enum2', 'L') and not ustr:
                 cell = [c.encode() for c in cell] if is_array(k) else cell.encode()
             arr[n][i] = cell
     return arr
 
 
 def enums_for(cols, enumname='COLORS'):
-    e = {n: (enumname, tuple(ENUM_LABELS)) for n, k in cols if base_kind(k) == 'enum'}
+    # 'enum2' columns use a second enum TYPE with the same labels in the same order
+    e = {n: (enumname if base_kind(k) == 'enum' else 'SHADES', tuple(ENUM_LABELS)) for n, k in cols
+         if base_kind(k) in ('enum', 'enum2')}
     return e or None
 
 
@@ -111,8 +118,8 @@ def expected_table(cols, rows):
     for n, k in cols:
         b = base_kind(k)
         cls = {'i2': ('i', 2), 'i4': ('i', 4), 'i8': ('i', 8), 'f4': ('f', 4), 'f8': ('f', 8), 'S': ('S', None),
-               'enum': ('S', None), 'L': ('S', None)}[b]
-        ccols.append((n, cls[0], cls[1], 2 if is_array(k) else 0))
+               'enum': ('S', None), 'enum2': ('S', None), 'L': ('S', None)}[b]
+        ccols.append((n, cls[0], cls[1], arr_len(k)))
     crow = []
     for row in rows:
         out = []
